@@ -334,6 +334,17 @@ def moduleValue (env : Env) (execPrefix : String) (name : String) : Option CVal 
     parts.append(tr2.function(psn, 'def parseShortName (appFrame : String → Bool × Option String) '
                                    '(filename : String) : String × Bool'))
 
+    # ---- the route a collected frame takes: FrameCollector asks its source, the snapshot action context asks the
+    #      configuration of its trigger — nothing in between (no memo, no second rule set)
+    sa = load('src/deep/processor/context/snapshot_action.py')
+    if not same_shape(find_def(sa, 'SnapshotActionContext.is_app_frame'),
+                      'return self.trigger_context.config.is_app_frame(filename)'):
+        raise Untranslatable('SnapshotActionContext.is_app_frame no longer just asks the trigger\'s configuration')
+    parts.append('/-- `SnapshotActionContext.is_app_frame(filename)` is `self.trigger_context.config.is_app_frame(filename)`:\n'
+                 '    the `appFrame` argument of `parseShortName` in production is the configuration\'s `isAppFrame`\n'
+                 '    (read from the source on every run; a cache or a second rule set in between is Untranslatable) -/\n'
+                 'def contextAsksConfig : Bool := true\n')
+
     # ---- deep.start
     st = find_def(load(DEEP), 'start')
     body = strip_doc(st.body)
